@@ -34,7 +34,6 @@ var rec = hx.NewRecorder("C16",
 	"MaxTxnRetries is set above the number of commits of a case, so an incoming merge dropped with a conflict cannot be a legitimately exhausted retry loop",
 	"a merge that neither completes nor logs a failure within 75 s ends the run inconclusive, not as a violation",
 	"closing the nodes is not part of the schedule: the harness waits (bounded) for replicator pushes and for the replicator peer's merges before closing, and a race report with a node's Close on either side is not judged",
-	"while the listed races on the shared transaction's own state (store accessed without the wrapper mutex, callback lists) are unrepaired, accounting and structure verdicts of a case that hit them are not judged (label verdict-not-judged-after-known-shared-txn-race); half of the cases avoid shared transactions for that reason",
 	"in P2P cases no merges are published by the harness (the replicator peer logs its own merge failures through the same process-wide logger)",
 )
 
@@ -157,21 +156,7 @@ func tail(s string, n int) string {
 func verdict(t hx.TB, c Case, fails []*hx.Failure) {
 	var unknown *hx.Failure
 	seen := map[string]bool{}
-	// A listed race on the shared transaction's own state (pending writes, callback lists) leaves
-	// that transaction's effects undefined: the case is cut short there, its accounting and
-	// structure verdicts are not judged. Other race reports, panics and fatal errors still are.
-	corrupting := false
 	for _, f := range fails {
-		if (f.Sig == sigStoreBypass || f.Sig == sigTxnCallbacks) && rec.IsKnown(f.Sig) {
-			corrupting = true
-		}
-	}
-	for _, f := range fails {
-		if corrupting && (f.Sig == sigSharedTxnOpenIterator ||
-			(!strings.HasPrefix(f.Sig, "C16/race/") && !strings.HasPrefix(f.Sig, "C16/panic/") && !strings.HasPrefix(f.Sig, "C16/fatal/"))) {
-			rec.Label("verdict-not-judged-after-known-shared-txn-race")
-			continue
-		}
 		if seen[f.Sig] {
 			continue
 		}
